@@ -10,6 +10,16 @@ def Structural (c : Nat) : Prop :=
 
 instance : DecidablePred Structural := fun c => by unfold Structural; infer_instance
 
+/-- bytes of the numeric / temporal renderings: digits and `- + : . space` -/
+def Plain (c : Nat) : Prop := (48 ≤ c ∧ c ≤ 57) ∨ c ∈ [45, 43, 58, 46, 32]
+
+instance : DecidablePred Plain := fun c => by unfold Plain; infer_instance
+
+theorem Plain.structural {c : Nat} (h : Plain c) : Structural c := by
+  unfold Plain at h; unfold Structural
+  simp only [List.mem_cons, List.not_mem_nil, or_false] at h ⊢
+  omega
+
 mutual
 /-- all TEXT payloads of a value (the cell itself or array elements at any depth) -/
 def allTexts : Value → List Bytes
@@ -21,10 +31,10 @@ def allTextsList : List Value → List Bytes
   | x :: xs => allTexts x ++ allTextsList xs
 end
 
-theorem mem_natDigits {c n : Nat} (h : c ∈ natDigits n) : Structural c :=
+theorem mem_natDigits {c n : Nat} (h : c ∈ natDigits n) : Plain c :=
   Or.inl (natDigits_digits n c h)
 
-theorem mem_renderInt {c : Nat} {i : Int} (h : c ∈ renderInt i) : Structural c := by
+theorem mem_renderInt {c : Nat} {i : Int} (h : c ∈ renderInt i) : Plain c := by
   unfold renderInt at h
   split at h
   · simp only [List.mem_cons] at h
@@ -39,19 +49,19 @@ theorem mem_padLeft {c w : Nat} {s : Bytes} (h : c ∈ padLeft 48 w s) : c = 48 
   | inl h => exact Or.inl h.2
   | inr h => exact Or.inr h
 
-theorem structural_48 : Structural 48 := Or.inl (by omega)
+theorem plain_48 : Plain 48 := Or.inl (by omega)
 
-theorem mem_padInt {c w : Nat} {i : Int} (h : c ∈ padLeft 48 w (renderInt i)) : Structural c := by
+theorem mem_padInt {c w : Nat} {i : Int} (h : c ∈ padLeft 48 w (renderInt i)) : Plain c := by
   cases mem_padLeft h with
-  | inl h => subst h; exact structural_48
+  | inl h => subst h; exact plain_48
   | inr h => exact mem_renderInt h
 
-theorem mem_padNat {c w n : Nat} (h : c ∈ padLeft 48 w (natDigits n)) : Structural c := by
+theorem mem_padNat {c w n : Nat} (h : c ∈ padLeft 48 w (natDigits n)) : Plain c := by
   cases mem_padLeft h with
-  | inl h => subst h; exact structural_48
+  | inl h => subst h; exact plain_48
   | inr h => exact mem_natDigits h
 
-theorem mem_renderInterval {c : Nat} {n : Int} (h : c ∈ renderInterval n) : Structural c := by
+theorem mem_renderInterval {c : Nat} {n : Int} (h : c ∈ renderInterval n) : Plain c := by
   simp only [renderInterval, List.mem_append, List.mem_singleton] at h
   rcases h with ((((((h | h) | h) | h) | h) | h) | h)
   · exact mem_padInt h
@@ -62,7 +72,7 @@ theorem mem_renderInterval {c : Nat} {n : Int} (h : c ∈ renderInterval n) : St
   · subst h; exact Or.inr (by simp)
   · exact mem_padInt h
 
-theorem mem_renderYear {c : Nat} {y : Int} (h : c ∈ renderYear y) : Structural c := by
+theorem mem_renderYear {c : Nat} {y : Int} (h : c ∈ renderYear y) : Plain c := by
   unfold renderYear at h
   split at h
   · exact mem_padNat h
@@ -76,9 +86,9 @@ theorem mem_renderYear {c : Nat} {y : Int} (h : c ∈ renderYear y) : Structural
       | inl h => subst h; exact Or.inr (by simp)
       | inr h => exact mem_padNat h
 
-theorem mem_twoDigits {c : Nat} {n : Int} (h : c ∈ twoDigits n) : Structural c := mem_padNat h
+theorem mem_twoDigits {c : Nat} {n : Int} (h : c ∈ twoDigits n) : Plain c := mem_padNat h
 
-theorem mem_renderTimestamp {c : Nat} {d s f : Int} (h : c ∈ renderTimestamp d s f) : Structural c := by
+theorem mem_renderTimestamp {c : Nat} {d s f : Int} (h : c ∈ renderTimestamp d s f) : Plain c := by
   unfold renderTimestamp at h
   generalize civil d = p at h
   obtain ⟨y, m, dd⟩ := p
@@ -129,7 +139,7 @@ mutual
 theorem mem_displayValue (o : RealOracle) : ∀ (v : Value) (c : Nat), c ∈ displayValue o v →
     Source o (allTexts v) c
   | .null, c, h => Or.inl (Or.inr (by simp only [displayValue, sNULL] at h; simp at h ⊢; omega))
-  | .int i, c, h => Or.inl (mem_renderInt h)
+  | .int i, c, h => Or.inl (mem_renderInt h).structural
   | .real b, c, h => Or.inr (Or.inr ⟨b, h⟩)
   | .bool b, c, h => Or.inl (Or.inr (by
       cases b <;> simp only [displayValue, renderBool, sTrue, sFalse] at h <;> simp at h ⊢ <;> omega))
@@ -152,8 +162,8 @@ theorem mem_displayValue (o : RealOracle) : ∀ (v : Value) (c : Nat), c ∈ dis
         simp only [allTexts]
         exact mem_displayAll o xs x hx c hc
     · subst h; exact Or.inl (Or.inr (by simp))
-  | .timestamp _ _ _, c, h => Or.inl (mem_renderTimestamp h)
-  | .interval _, c, h => Or.inl (mem_renderInterval h)
+  | .timestamp _ _ _, c, h => Or.inl (mem_renderTimestamp h).structural
+  | .interval _, c, h => Or.inl (mem_renderInterval h).structural
 theorem mem_displayAll (o : RealOracle) : ∀ (xs : List Value) (x : Bytes), x ∈ displayAll o xs →
     ∀ c, c ∈ x → Source o (allTextsList xs) c
   | [], x, h, _, _ => by simp [displayAll] at h
